@@ -28,13 +28,60 @@ Definition err_eqb (a b : err) : bool :=
   | _, _ => false
   end.
 
+(* sorted(key=Comparator): a stable sort driven by `lt` only *)
+Section Sort.
+  Context {A : Type}.
+  Variable lt : A -> A -> bool.
+  Fixpoint ins_sorted (x : A) (l : list A) : list A :=
+    match l with
+    | [] => [x]
+    | y :: r => if lt y x then y :: ins_sorted x r else x :: y :: r
+    end.
+  Fixpoint sort_l (l : list A) : list A :=
+    match l with [] => [] | x :: r => ins_sorted x (sort_l r) end.
+End Sort.
+
+(* ---- ordering used by orderBy: yaql's #operator_< / #operator_> ------------ *)
+(* null is below everything else; integers (and booleans) by value; strings by code points.  Sequences
+   are not orderable in yaql (no overload); the rank function places them in one
+   class so that the relation stays a total preorder on the whole universe. *)
+Definition key_rank (v : val) : Z * list Z :=
+  match v with
+  | VNull => (0, [])
+  | VBool b => (1, [if b then 1 else 0])
+  | VInt z => (1, [z])
+  | VStr s => (2, s)
+  | VList _ _ => (3, [])
+  | VDict _ _ => (4, [])
+  end%Z.
+
+(* lexicographic comparison of code point / integer lists: Python's str and tuple-of-int order *)
+Fixpoint lcmp (a b : list Z) : comparison :=
+  match a, b with
+  | [], [] => Eq
+  | [], _ :: _ => Lt
+  | _ :: _, [] => Gt
+  | x :: r, y :: r' => match Z.compare x y with Eq => lcmp r r' | c => c end
+  end.
+
+Definition kcmp (a b : val) : comparison :=
+  let '(ra, za) := key_rank a in
+  let '(rb, zb) := key_rank b in
+  match Z.compare ra rb with
+  | Eq => lcmp za zb
+  | c => c
+  end.
+
+Definition val_ltb (a b : val) : bool := match kcmp a b with Lt => true | _ => false end.
+Definition val_gtb (a b : val) : bool := match kcmp a b with Gt => true | _ => false end.
+
 (* ---- equality ------------------------------------------------------------ *)
 (* Python ==/hash on the modelled values: True == 1, False == 0; a tuple never
    equals a list. *)
 Definition num_of (v : val) : option Z :=
   match v with VBool b => Some (if b then 1 else 0)%Z | VInt z => Some z | _ => None end.
 
-Fixpoint val_eqb (a b : val) : bool :=
+Fixpoint val_seqb (a b : val) : bool :=
   match a, b with
   | VNull, VNull => true
   | VList m l, VList m' l' =>
@@ -42,7 +89,7 @@ Fixpoint val_eqb (a b : val) : bool :=
       (fix go (l l' : list val) : bool :=
          match l, l' with
          | [], [] => true
-         | x :: r, y :: r' => val_eqb x y && go r r'
+         | x :: r, y :: r' => val_seqb x y && go r r'
          | _, _ => false
          end) l l'
   | VBool x, VBool y => Bool.eqb x y
@@ -51,17 +98,29 @@ Fixpoint val_eqb (a b : val) : bool :=
   | VInt x, VInt y => Z.eqb x y
   | VStr x, VStr y => list_eqb Z.eqb x y
   | VDict _ d, VDict _ d' =>
-      (* Python compares dicts (and FrozenDict with dict) item-wise regardless of insertion order; the model
-         compares in insertion order, which agrees on the generated inputs (dict elements are built with their
-         keys in one canonical order) *)
       (fix go (d d' : list (val * val)) : bool :=
          match d, d' with
          | [], [] => true
-         | (k, v) :: r, (k', v') :: r' => val_eqb k k' && val_eqb v v' && go r r'
+         | (k, v) :: r, (k', v') :: r' => val_seqb k k' && val_seqb v v' && go r r'
          | _, _ => false
          end) d d'
   | _, _ => false
   end.
+
+(* Python compares dicts (FrozenDict and dict alike) as finite maps, regardless of insertion order, and hashes them
+   accordingly.  [canon] brings every dict (at every depth) into one order - its items stably sorted by key for the
+   order yaql's < induces on scalars (null < numbers < strings) - and forgets the frozen/mutable distinction;
+   equality is structural equality of the canonical forms.  (Dicts whose keys are themselves sequences or dicts tie
+   in that order and are compared in insertion order.) *)
+Fixpoint canon (v : val) : val :=
+  match v with
+  | VList m l => VList m (map canon l)
+  | VDict _ d => VDict false (sort_l (fun p q => val_ltb (fst p) (fst q))
+                                     (map (fun kv => match kv with (k, x) => (canon k, canon x) end) d))
+  | x => x
+  end.
+
+Definition val_eqb (a b : val) : bool := val_seqb (canon a) (canon b).
 
 (* strict structural equality modulo the tuple/list flag: what two finalised
    results are compared with (True and 1 are different observations) *)
@@ -107,40 +166,6 @@ Definition truthy (v : val) : bool :=
   | VStr s => match s with [] => false | _ => true end
   | VDict _ d => match d with [] => false | _ => true end
   end.
-
-(* ---- ordering used by orderBy: yaql's #operator_< / #operator_> ------------ *)
-(* null is below everything else; integers (and booleans) by value; strings by code points.  Sequences
-   are not orderable in yaql (no overload); the rank function places them in one
-   class so that the relation stays a total preorder on the whole universe. *)
-Definition key_rank (v : val) : Z * list Z :=
-  match v with
-  | VNull => (0, [])
-  | VBool b => (1, [if b then 1 else 0])
-  | VInt z => (1, [z])
-  | VStr s => (2, s)
-  | VList _ _ => (3, [])
-  | VDict _ _ => (4, [])
-  end%Z.
-
-(* lexicographic comparison of code point / integer lists: Python's str and tuple-of-int order *)
-Fixpoint lcmp (a b : list Z) : comparison :=
-  match a, b with
-  | [], [] => Eq
-  | [], _ :: _ => Lt
-  | _ :: _, [] => Gt
-  | x :: r, y :: r' => match Z.compare x y with Eq => lcmp r r' | c => c end
-  end.
-
-Definition kcmp (a b : val) : comparison :=
-  let '(ra, za) := key_rank a in
-  let '(rb, zb) := key_rank b in
-  match Z.compare ra rb with
-  | Eq => lcmp za zb
-  | c => c
-  end.
-
-Definition val_ltb (a b : val) : bool := match kcmp a b with Lt => true | _ => false end.
-Definition val_gtb (a b : val) : bool := match kcmp a b with Gt => true | _ => false end.
 
 (* ---- the lambda family ------------------------------------------------------ *)
 Inductive lam :=
@@ -381,17 +406,6 @@ Section Generic.
       fold_left (fun g x => group_add (key x) (value x) g) l [].
   End Key.
 
-  (* sorted(key=Comparator): a stable sort driven by `lt` only *)
-  Section Sort.
-    Variable lt : A -> A -> bool.
-    Fixpoint ins_sorted (x : A) (l : list A) : list A :=
-      match l with
-      | [] => [x]
-      | y :: r => if lt y x then y :: ins_sorted x r else x :: y :: r
-      end.
-    Fixpoint sort_l (l : list A) : list A :=
-      match l with [] => [] | x :: r => ins_sorted x (sort_l r) end.
-  End Sort.
 End Generic.
 
 (* OrderingIterable.Comparator.compare: first key on which `<` or `>` decides *)
